@@ -48,7 +48,7 @@ func drawProbe(g *gen.G) (probe, bool) {
 	var pures, makers []gen.Def
 	for _, d := range g.Defs {
 		switch d.Kind {
-		case gen.Pure:
+		case gen.Pure, gen.ArrPure:
 			pures = append(pures, d)
 		case gen.Maker:
 			makers = append(makers, d)
@@ -144,6 +144,16 @@ func (C03) Run(tp *tape.Tape) core.Result {
 	for _, d := range buildDefs(g, sw) {
 		key = key.Str(shapeOf(d))
 		if o, stop := submit(d, 0); stop || o.Kind != sess.KValue {
+			if !stop {
+				r.Discard = "definition did not evaluate: " + o.Brief()
+			}
+			goto done
+		}
+	}
+	if tp.Draw(3) == 2 {
+		d := g.DefCondLocals()
+		key = key.Str(shapeOf(d.Src))
+		if o, stop := submit(d.Src, 0); stop || o.Kind != sess.KValue {
 			if !stop {
 				r.Discard = "definition did not evaluate: " + o.Brief()
 			}
